@@ -669,7 +669,7 @@ pub fn run(cli: &Cli) {
     let thorough = cli.tier == Tier::Thorough;
     let mut run = Run::new(cli, "model_checking");
     let s = S10::new(thorough);
-    let b = Bounds::new(cli.tier.pick(5, 6), cli).states(cli.tier.pick(400_000, 8_000_000));
+    let b = Bounds::new(cli.tier.pick(5, 7), cli).states(cli.tier.pick(400_000, 8_000_000));
     let r = explore(&s, &b);
     crate::require_labels(&r, &["Put", "Replace", "Write", "Take", "Delete", "Open", "Commit", "Drop", "Fork", "Switch", "Merge"]);
     run.add(r);
